@@ -553,6 +553,7 @@ fn c18_pairs(tb: &Tablebase, count: usize) -> Vec<(Pos, Pos, String)> {
             if found >= count {
                 break;
             }
+            let _ = &found;
         }
     }
     out
@@ -705,6 +706,94 @@ pub fn run_c18(ctx: &Ctx) -> i32 {
             ctx.violation("exit-status", sent.join("; "), json!({"status": code}));
         }
     });
+    // table staleness: with S recorded, a search of M stores "no mate" for M (its only fast
+    // mating move is a repetition). After `ucinewgame` a position M2 that reaches M two plies
+    // below the root (M2 mates in 5 plies, one defence leads to M) must still be recognised
+    // as a win at depth 6, as in a fresh process.
+    {
+        use std::collections::HashMap;
+        let all_pairs = c18_pairs(&tb, usize::MAX);
+        let by_key: HashMap<Key, usize> = all_pairs.iter().enumerate().map(|(i, x)| (x.0.key(), i)).collect();
+        let mut triples: Vec<(Pos, usize)> = Vec::new();
+        'outer: for k in [ROOK, QUEEN] {
+            for (p, v) in tb.positions(k) {
+                if v != Val::Win(5) {
+                    continue;
+                }
+                for q in [p.clone(), p.mirror()] {
+                    // the mate must hinge on M: exactly one first move wins within 9 plies
+                    // (so no other mate is within reach of a depth-6 search with its check
+                    // extensions), and that move leads to X
+                    let succ = q.legal();
+                    if succ.iter().filter(|(_, x)| matches!(tb.probe(x), Some(Val::Loss(n)) if n <= 8)).count() != 1 {
+                        continue;
+                    }
+                    for (_, x) in succ {
+                        if !matches!(tb.probe(&x), Some(Val::Loss(4))) {
+                            continue;
+                        }
+                        for (_, m) in x.legal() {
+                            if let Some(&pi) = by_key.get(&m.key()) {
+                                triples.push((q.clone(), pi));
+                                if triples.len() >= if quick { 6 } else { 24 } {
+                                    break 'outer;
+                                }
+                            }
+                        }
+                    }
+                }
+            }
+        }
+        ctx.add("table_staleness_triples", triples.len() as u64);
+        if let Some((m2, pi)) = triples.first() {
+            ctx.sample(json!({"table_staleness": {"M2": m2.fen(), "M": all_pairs[*pi].0.fen(), "S": all_pairs[*pi].1.fen()}}));
+        }
+        par_io(ctx, &triples, io_threads(), |(m2, pi), l| {
+            let (m, s_pos, _) = &all_pairs[*pi];
+            for with_history in [false, true] {
+                let mut s = Session::spawn();
+                let mut sent: Vec<String> = Vec::new();
+                if with_history {
+                    for (cmd, wait) in [
+                        (format!("position fen {}", s_pos.fen()), false),
+                        ("go depth 1".to_string(), s_pos.has_legal_move()),
+                        (format!("position fen {}", m.fen()), false),
+                        ("go depth 4".to_string(), true),
+                        ("ucinewgame".to_string(), false),
+                    ] {
+                        sent.push(cmd.clone());
+                        s.send(&cmd);
+                        if wait && s.read_until(is_bestmove, Duration::from_secs(30)).is_err() {
+                            ctx.violation("no-bestmove-in-time", sent.join("; "), json!({"trace": sent}));
+                            return;
+                        }
+                    }
+                }
+                for cmd in [format!("position fen {}", m2.fen()), "go depth 6".to_string()] {
+                    sent.push(cmd.clone());
+                    s.send(&cmd);
+                }
+                let lines = match s.read_until(is_bestmove, Duration::from_secs(60)) {
+                    Ok(l) => l,
+                    Err(_) => {
+                        ctx.violation("no-bestmove-in-time", sent.join("; "), json!({"trace": sent}));
+                        return;
+                    }
+                };
+                l.inc("sessions");
+                let (score, bm) = last_score_and_bestmove(&lines);
+                if !score.map(|x| x >= 10_000.0).unwrap_or(false) {
+                    ctx.violation(
+                        if with_history { "stale-table-after-ucinewgame" } else { "fresh-process-misses-mate-in-5" },
+                        format!("{} | M2={}", sent.join("; "), m2.fen()),
+                        json!({"trace": sent, "M2": m2.fen(), "M": m.fen(), "S": s_pos.fen(), "score_cp": score, "bestmove": bm, "transcript": s.transcript}),
+                    );
+                    return;
+                }
+                let _ = s.finish(HANG);
+            }
+        });
+    }
     ctx.sample(json!({"M": pairs[0].0.fen(), "S": pairs[0].1.fen(), "only_move_mating_within_5_plies": pairs[0].2, "history_example": ["position fen S", "go depth 1", "stop", "ucinewgame", "position fen M", "go depth 4"]}));
     finish(
         ctx,
@@ -712,7 +801,7 @@ pub fn run_c18(ctx: &Ctx) -> i32 {
         ctx.get("sessions").max(1),
         ctx.get("sessions"),
         true,
-        "every command history of length <= 3 (thorough 4) over {position S, position other, go depth 1 (waited), go depth 3 (not waited), stop, isready} followed by the new game opened in every order of length 2-3 over {ucinewgame, position M, isready, stop} that contains both `ucinewgame` and `position M` (20 orders; in the quick tier the longest histories are combined with the three customary orders only) and `go depth 4`, for tablebase pairs (M,S): M is a mate in 3 plies whose only first move that mates within 5 plies leads to S (both colours, rook and queen); each history is one process run; the answer must be the one a fresh process gives (the empty history is in the set): terminal winning score and that unique bestmove",
+        "every command history of length <= 3 (thorough 4) over {position S, position other, go depth 1 (waited), go depth 3 (not waited), stop, isready} followed by the new game opened in every order of length 2-3 over {ucinewgame, position M, isready, stop} that contains both `ucinewgame` and `position M` (20 orders; in the quick tier the longest histories are combined with the three customary orders only) and `go depth 4`, for tablebase pairs (M,S): M is a mate in 3 plies whose only first move that mates within 5 plies leads to S (both colours, rook and queen); each history is one process run; the answer must be the one a fresh process gives (the empty history is in the set): terminal winning score and that unique bestmove; table staleness: S and then M searched in the old game (M's stored result is 'no mate' because its mating move repeats S), after `ucinewgame` a position two plies above M with a mate in 5 must still be scored as a win at depth 6",
         &["seeds inside the UCI loop come from the OS; the expected answer is therefore the tablebase-unique move, not a byte-identical transcript"],
     )
 }
